@@ -92,15 +92,18 @@ structure Sci where
   k : Int
   deriving Repr
 
-/-- enclosure of exp over the interval a (any magnitude up to ~10^5): exp a = 10^k · exp(a − k·ln10) -/
-def expI (a : I) : Sci :=
+/-- enclosure of exp over the interval a: exp a = 10^k · exp(a − k·ln10).  `none` when the reduced argument
+    leaves [−8, 8] (the series/squaring kernel is proved sound there; for every argument the checks use the
+    reduced argument lies in roughly [0, 2.31]); this happens only for absurd arguments (|a| ≳ 10^79, where
+    k·ln10 can no longer be formed to the units digit with 80 digits, or intervals wider than ~5) -/
+def expI (a : I) : Option Sci :=
   let mid := (a.lo + a.hi) / 2
   let k : Int := (mid / ((ln10.lo + ln10.hi) / 2)).floor
   let kl := ln10.scale (k : Rat)
   let r := a.sub kl                     -- r ⊂ roughly [0, 2.31]
-  ⟨expSmallI r, k⟩
+  if -8 ≤ r.lo && r.hi ≤ 8 then some ⟨expSmallI r, k⟩ else none
 
-def exp (x : Rat) : Sci := expI (I.pt x)
+def exp (x : Rat) : Option Sci := expI (I.pt x)
 
 /-- exp x − 1 for |x| ≤ 1/64 without cancellation: x + x²/2! + … -/
 def expm1Tiny (x : Rat) : I :=
@@ -111,12 +114,14 @@ def expm1Tiny (x : Rat) : I :=
   ⟨rdDown (s - tail), rdUp (s + tail)⟩
 
 /-- exp x − 1 as a plain interval (only used for moderate x; |result| may be tiny) -/
-def expm1 (x : Rat) : I :=
-  if (if x < 0 then -x else x) ≤ 1 / 64 then expm1Tiny x
+def expm1 (x : Rat) : Option I :=
+  if (if x < 0 then -x else x) ≤ 1 / 64 then some (expm1Tiny x)
   else
-    let e := exp x
-    let p := pow10 e.k
-    ⟨rdDown (e.m.lo * p - 1), rdUp (e.m.hi * p - 1)⟩
+    match exp x with
+    | none => none
+    | some e =>
+      let p := pow10 e.k
+      some ⟨rdDown (e.m.lo * p - 1), rdUp (e.m.hi * p - 1)⟩
 
 /-! ## log, certified through exp -/
 
@@ -138,20 +143,25 @@ def logGuess (q : Rat) (k : Int) : Rat :=
 
 /-- one Newton step for ln(q·10^k):  g + (x·e^-g − 1), evaluated with interval midpoints -/
 def newton (q : Rat) (k : Int) (g : Rat) : Rat :=
-  let e := exp (-g)
-  let mid := (e.m.lo + e.m.hi) / 2
-  let t := q * mid * pow10 (k + e.k)          -- ≈ x·e^-g ≈ 1
-  rdDown (g + (t - 1))
+  match exp (-g) with
+  | none => g
+  | some e =>
+    let mid := (e.m.lo + e.m.hi) / 2
+    let t := q * mid * pow10 (k + e.k)          -- ≈ x·e^-g ≈ 1
+    rdDown (g + (t - 1))
 
 /-- does exp(g) ≤ q·10^k hold for certain / does exp(g) ≥ q·10^k hold for certain -/
 def expLe (g : Rat) (q : Rat) (k : Int) : Bool :=
-  let e := exp g
-  e.m.hi * pow10 (e.k - k) ≤ q
+  match exp g with
+  | none => false
+  | some e => e.m.hi * pow10 (e.k - k) ≤ q
 def expGe (g : Rat) (q : Rat) (k : Int) : Bool :=
-  let e := exp g
-  e.m.lo * pow10 (e.k - k) ≥ q
+  match exp g with
+  | none => false
+  | some e => e.m.lo * pow10 (e.k - k) ≥ q
 
-/-- certified enclosure of ln(q·10^k) for q > 0: `none` if the bracket could not be certified -/
+/-- certified enclosure of ln(q·10^k) for q > 0: `none` if the bracket could not be certified (in particular
+    when the floating-point seed is absurd: then `exp` has no enclosure at the bracket ends) -/
 def log (q : Rat) (k : Int) : Option I :=
   let g0 := logGuess q k
   let g1 := newton q k g0
